@@ -561,6 +561,29 @@ pub fn generators(level: usize) -> Vec<Program> {
             out.push(Program::Gen(Gen { ty, kind: GenKind::Range { start: Some(x), end: y, step: Some(s) }, out: c }));
         }
     }
+    // large magnitudes (nanosecond timestamps): the span must be taken in the element type,
+    // not after a detour through f64
+    for (ty, c) in [(GenTy::I64, Container::Sim), (GenTy::I64, Container::Vec), (GenTy::Usize, Container::Sim)] {
+        let t0 = 1_700_000_000_000_000_000i64;
+        for (a, b, s) in [
+            (t0, t0 + 1000, 100i64),
+            (t0 + 1, t0 + 11, 1),
+            (t0, t0 + 7, 2),
+            (t0 + 3, t0 + 3, 1),
+            (t0 + 5, t0, 1),
+            (t0, t0 + 1001, 100),
+        ] {
+            out.push(Program::Gen(Gen {
+                ty,
+                kind: GenKind::Range { start: Some(Val::I(a)), end: Val::I(b), step: if s == 1 { None } else { Some(Val::I(s)) } },
+                out: c,
+            }));
+        }
+        if ty == GenTy::I64 {
+            out.push(Program::Gen(Gen { ty, kind: GenKind::Range { start: Some(Val::I(t0 + 10)), end: Val::I(t0), step: Some(Val::I(-3)) }, out: c }));
+            out.push(Program::Gen(Gen { ty, kind: GenKind::Range { start: Some(Val::I(-t0)), end: Val::I(-t0 + 10), step: Some(Val::I(3)) }, out: c }));
+        }
+    }
     // collect_vec1_opt by element type: every None must become the element type's own null
     for ty in [GenTy::Str, GenTy::F32, GenTy::F64] {
         for c in containers {
